@@ -62,3 +62,9 @@ def c03_access_stmt_reordered(w, p):
             names)
     return {k: sorted(map(sorted, v)) for k, v in minus.items()} == \
         {k: sorted(map(sorted, v)) for k, v in plus.items()}
+
+
+def mechanism_prefix_in_kinds(w, p):
+    m = w.get("mechanism")
+    return (isinstance(m, str) and m.startswith(p.get("prefix", "\0"))
+            and w.get("kind") in p.get("kinds", []))
